@@ -32,6 +32,8 @@ def line_text(k, n, a, b):
         return f'{nm(n)} = {a}'
     if k == 'i1':
         return 'nop'
+    if k == 'm2':
+        return 'two4'
     if k == 'i2':
         return f'ld8 {operand(n, a)}'
     if k == 'i3':
